@@ -49,7 +49,7 @@ import (
 var (
 	XRDName   = "xthings.example.org"
 	XRGVK     = schema.GroupVersionKind{Group: "example.org", Version: "v1", Kind: "XThing"}
-	ClaimGVK  = schema.GroupVersionKind{Group: "example.org", Version: "v1", Kind: "Thing"}
+	ClaimGVK  = schema.GroupVersionKind{Group: "example.org", Version: "v1", Kind: "ThingClaim"}
 	ThingGVK  = schema.GroupVersionKind{Group: "things.example.org", Version: "v1", Kind: "Thing"}
 	GadgetGVK = schema.GroupVersionKind{Group: "things.example.org", Version: "v1", Kind: "Gadget"}
 	StrictGVK = schema.GroupVersionKind{Group: "things.example.org", Version: "v1", Kind: "Strict"}
@@ -285,7 +285,7 @@ func XRD(o Opts) *v1.CompositeResourceDefinition {
 		},
 	}
 	if o.Claims {
-		d.Spec.ClaimNames = &extv1.CustomResourceDefinitionNames{Kind: "Thing", Plural: "things", ListKind: "ThingList", Singular: "thing"}
+		d.Spec.ClaimNames = &extv1.CustomResourceDefinitionNames{Kind: "ThingClaim", Plural: "thingclaims", ListKind: "ThingClaimList", Singular: "thingclaim"}
 	}
 	if o.DefaultCompositionRef {
 		d.Spec.DefaultCompositionRef = &v1.CompositionReference{Name: "comp"}
